@@ -86,7 +86,7 @@ CONSTANTS N,         \* max number of coroutines ever created (ids 1..N in order
           Kinds,     \* step kinds coroutines may use
           NatKinds,  \* step kinds native code may use, subset of {"sd","rd","up","qd"}
           Prune,     \* TRUE: steps that are no-ops in the current state are not generated
-          Plan       \* "free" | "wide"
+          Plan       \* "free" | "wide" | "wideq"
 
 ASSUME M \in {0, 1}
 
@@ -137,7 +137,9 @@ PoolOn == (Kinds \cap PoolKinds # {}) \/ ("pr" \in NatKinds)
 Obs == <<"obs", 0>>
 (* Family of long deque histories: <<A, S, B, P>> = the root detaches A workers and returns; worker
    number S detaches B children; every other coroutine pauses once first (P = 1) or returns at once *)
-WideCases == {<<10, 4, 12, 0>>, <<10, 4, 12, 1>>, <<6, 2, 30, 0>>, <<14, 9, 20, 1>>, <<18, 17, 18, 0>>, <<3, 3, 40, 1>>}
+WideCases == IF Plan = "wideq" THEN {<<10, 4, 12, 0>>, <<6, 2, 30, 1>>}      \* quick tier
+             ELSE {<<10, 4, 12, 0>>, <<10, 4, 12, 1>>, <<6, 2, 30, 0>>, <<6, 2, 30, 1>>, <<14, 9, 20, 1>>,
+                   <<18, 17, 18, 0>>, <<3, 3, 40, 1>>}
 Last(s) == s[Len(s)]
 Front(s) == SubSeq(s, 1, Len(s) - 1)
 In(x, H) == \E j \in 1..Len(H) : H[j] = x
@@ -162,7 +164,7 @@ Init == /\ script = [c \in All |-> <<>>]
         /\ nrd = [c \in Cor |-> 0] /\ nrs = [c \in Cor |-> 0]
         /\ ptasks = <<>> /\ thr = 0 /\ nat = "idle"
         /\ acc = [c \in Cor |-> <<>>]
-        /\ wcase \in (IF Plan = "wide" THEN WideCases ELSE {<<0, 0, 0, 0>>})
+        /\ wcase \in (IF Plan \in {"wide", "wideq"} THEN WideCases ELSE {<<0, 0, 0, 0>>})
 
 -----------------------------------------------------------------------------
 (* Transfer of control.  S, P, Mi, E, Q are the values of st, pc, mid, ev, queue after the effects
@@ -247,7 +249,7 @@ WideChoice(c) ==
     ELSE IF wcase[4] = 1 /\ i = 1 THEN <<"pa", 0>> ELSE <<"re", 0>>
 
 Choices(c) ==
-    IF Plan = "wide" THEN {WideChoice(c)}
+    IF Plan \in {"wide", "wideq"} THEN {WideChoice(c)}
     ELSE IF Len(script[c]) >= MaxSteps THEN {<<"re", 0>>}
     ELSE {<<"re", 0>>}
       \cup K0("pa", TRUE)
